@@ -1,3 +1,24 @@
+(* C07 property theorems.  Nothing but statements closed by `exact`, each followed by Print Assumptions.
+   Part 1: Givaro::Montgomery<int32_t>.  Ring32 p F: F is what the constructor returns for an admissible p
+   (odd, 3 <= p <= maxCardinality(), the bound read from the implementation into Param.v); canon p a: 0 <= a < p;
+   convert F a is the residue the stored element a stands for.  The statements are the *_stmt definitions of Proofs32.v. *)
 From Coq Require Import ZArith.
-From C07 Require Import Param Model.
+From C07 Require Import Param Model Redc Proofs32.
 Local Open Scope Z_scope.
+
+Theorem C07_m32_constructor_constants_exact : M32_constructor_stmt.      Proof. exact M32_constructor. Qed.
+Print Assumptions C07_m32_constructor_constants_exact.
+Theorem C07_m32_six_reductions_are_redc : M32_reductions_stmt.            Proof. exact M32_reductions. Qed.
+Print Assumptions C07_m32_six_reductions_are_redc.
+Theorem C07_m32_ring_ops_are_plain_residues : M32_ring_ops_stmt.          Proof. exact M32_ring_ops. Qed.
+Print Assumptions C07_m32_ring_ops_are_plain_residues.
+Theorem C07_m32_fused_ops_are_plain_residues : M32_fused_ops_stmt.        Proof. exact M32_fused_ops. Qed.
+Print Assumptions C07_m32_fused_ops_are_plain_residues.
+Theorem C07_m32_inverse_and_division : M32_inv_div_stmt.                  Proof. exact M32_inv_div. Qed.
+Print Assumptions C07_m32_inverse_and_division.
+Theorem C07_m32_isUnit_is_gcd_test : M32_isUnit_stmt.                     Proof. exact M32_isUnit. Qed.
+Print Assumptions C07_m32_isUnit_is_gcd_test.
+Theorem C07_m32_init_convert_identity : M32_init_convert_stmt.            Proof. exact M32_init_convert. Qed.
+Print Assumptions C07_m32_init_convert_identity.
+Theorem C07_m32_constants_and_predicates : M32_constants_predicates_stmt. Proof. exact M32_constants_predicates. Qed.
+Print Assumptions C07_m32_constants_and_predicates.
